@@ -37,7 +37,7 @@ Act(ev) ==
      [] ev.name = "Reserve" -> Reserve(c, a)
      [] ev.name = "Clear" -> Clear(c)
      [] ev.name = "CopyCtor" -> CopyCtor(c, a)
-     [] ev.name = "MoveCtor" -> MoveCtor(c, a)
+     [] ev.name = "MoveCtor" -> IF keep THEN MoveCtorAdopt(c, a, ev.ocontents) ELSE MoveCtor(c, a)
      [] ev.name = "CopyAssign" -> CopyAssign(c, a)
      [] ev.name = "MoveAssign" -> MoveAssign(c, a)
      [] OTHER -> Query(c)
@@ -54,13 +54,13 @@ RetErrs(ev) ==
      [] OTHER -> {}
 
 TInit == /\ JInit /\ l = 1 /\ sync = FALSE /\ elem = "int" /\ L = LInit
-         /\ cap = 0 /\ ex = [c \in C |-> FALSE] /\ el = [c \in C |-> <<>>]
+         /\ cap = 0 /\ keep = FALSE /\ ex = [c \in C |-> FALSE] /\ el = [c \in C |-> <<>>]
 Bad(errs, info) == Flag(l, SetToSeq(errs), info) /\ sync' = FALSE
 TNext ==
    /\ l <= NTrace /\ l' = l + 1 /\ Consumed(l)
    /\ LET ev == TraceLog[l] IN
       IF ev.e = "Reset" THEN
-           /\ cap' = ev.cap /\ ex' = [c \in C |-> FALSE] /\ el' = [c \in C |-> <<>>] /\ elem' = ev.elem /\ L' = LInit /\ sync' = TRUE
+           /\ cap' = ev.cap /\ keep' = (ev.keep = 1) /\ ex' = [c \in C |-> FALSE] /\ el' = [c \in C |-> <<>>] /\ elem' = ev.elem /\ L' = LInit /\ sync' = TRUE
       ELSE IF ~sync THEN UNCHANGED <<avars, sync, elem, L>>
       ELSE IF ev.e = "Fault" THEN Bad({"fault"}, [kind |-> ev.kind, where |-> ev.where]) /\ UNCHANGED <<avars, elem, L>>
       ELSE IF ev.e = "Alloc" THEN L' = AllocStep(L, ev.b, ev.n) /\ sync' = TRUE /\ UNCHANGED <<avars, elem>>
